@@ -26,14 +26,21 @@ def log_runner(prop, tier):
                     continue
                 sev2 = (sv * 2 + m + f) % 7      # second statement: another severity, or none (6)  -- same formulas as log_variant.h
                 form, tag, nlazy = (m + f + sv) % 3, (m + 2 * f + sv // 2) % 2, (m * 5 + f * 3 + sv) % 3
+                rep = (m + sv + f // 2) % 2 == 0
+                if prop == 'C10' and not th and nlazy == 0:
+                    continue      # C10 is about lazily evaluated callables: its quick tier keeps the grid points that stream at least one (C05 runs all of them)
                 d = ['-DMINIDX=%d' % m, '-DFILT=%d' % f, '-DSEV=%d' % sv]
                 used[m] |= 1 << (f * 6 + sv)
                 outcomes = set((sv >= m) and fspec(f, t0, t1, sv) for t0 in range(6) for t1 in range(6))
                 w = (['statement disabled'] if False in outcomes else []) + (['statement emitted'] if True in outcomes else [])
+                if rep and len(outcomes) == 2:
+                    w += ['emitted, then disabled by a threshold change', 'disabled, then enabled by a threshold change']
                 prof = [[0, 0, 97, 98, 99, 33, 42], [5, 5, 97, 0, 0, 33, 7], [2, 3, 0, 0, 98, 35, 99], [0, 5, 97, 98, 0, 36, 0], [3, 1, 97, 98, 99, 33, 10]]
+                if rep:
+                    prof = [p[:2] + t + p[2:] for p, t in zip(prof, ([5, 5], [0, 0], [3, 2], [5, 0], [0, 0]))]
                 qs.append(Query('m%d_f%d_s%d' % (m, f, sv), d, w, unwind=2, hardcap=16, est_gb=1, profile=prof,
                                 sample={'compile_time_minimum': SEVN[m], 'filter': FILTN[f], 'statement_severity': SEVN[sv], 'second_statement': SEVN[sev2] if sev2 < 6 else None,
-                                        'form': ['one expression', 'named stream object', 'named stream object with another statement of the same severity issued while it is open'][form], 'tag': bool(tag), 'lazy_callables': nlazy,
+                                        'form': ['one expression', 'named stream object', 'named stream object with another statement of the same severity issued while it is open'][form], 'tag': bool(tag), 'lazy_callables': nlazy, 'threshold_change_then_same_severity_again': rep,
                                         'symbolic': 'both runtime thresholds, streamed strings / char / integer'}))
                 if len(corpus) < 60:
                     corpus += [(d, p) for p in prof[:2]]
@@ -44,8 +51,8 @@ def log_runner(prop, tier):
              obligations=obl, queries=qs, corpus=corpus)
     return Runner(prop, tier, [u],
                   bounds={'grid': '%d queries: (compile-time minimum x filter expression x statement severity) enumerated outside the solver (quick: a covering subset, thorough: the full 6 x 10 x 6 grid)' % len(qs),
-                          'per_query_symbolic': 'both thresholds 0..5, one-expression vs named stream object, with/without tag, 0..2 lazy callables, strings of 0..2 and 0..1 bytes, a char, an integer 0..99, a second statement'},
+                          'per_query_symbolic': 'both thresholds 0..5, one-expression vs named stream object, with/without tag, 0..2 lazy callables, strings of 0..2 and 0..1 bytes, a char, an integer 0..99, a second statement; for half of the grid points a further statement of the same severity after both thresholds were set again to new symbolic values'},
                   outside=['the real sinks (stdout, file, syslog) and attributes other than message/severity/tag/timestamp', 'integers above 99 (stream model bound)', 'filter expressions beyond the ten listed',
-                           'more than two statements in sequence'],
+                           'more than three statements in sequence, more than one change of the runtime thresholds'],
                   assumptions=['formatter and sink are the user-supplied template parameters of the logger (a counting formatter, a recording sequence<A,B> sink), the clock is a fake clock',
                                'the type-level half of C10 (statement type == null_stream below the minimum) is a static_assert decided by the compiler for each of the six minima, not by the solver'])
